@@ -144,7 +144,7 @@ fn c05(g: &mut Gen) {
         let big: u64 = (1u64 << 32) + 70;
         g.group(vec![format!("raw H huge {} 1", big), "raw H hcount".to_string(), format!("raw H bit {}", big - 1), format!("raw H hset_bit {} 0", 1u64 << 32),
                      "raw H hpush_bit 1".to_string(), format!("raw H hresize {} 0", big + 200), format!("raw H bit {}", big + 100), format!("raw H hresize {} 1", (1u64 << 32) + 3), "raw H hcount".to_string()]);
-        g.group(vec!["raw H new".to_string(), format!("raw H hresize {} 1", big), "raw H hcount".to_string(), format!("raw H hresize {} 0", 77), "raw H hcount".to_string()]);
+        g.group(vec!["raw H huge 0 1".to_string(), format!("raw H hresize {} 1", big), "raw H hcount".to_string(), format!("raw H hresize {} 0", 77), "raw H hcount".to_string()]);
     }
     // exhaustive short histories over the op alphabet, widths at the extremes
     let depth = if g.thorough { 4 } else { 3 };
